@@ -213,7 +213,7 @@ func judgeC02(v *spec.View, in, out string, dom bool) (sig, what string) {
 var c02Attrs = []string{
 	` id=abc`, ` id=123`, ` id="a b"`, ` id=""`, ` id`, ` ID=abc`, ` id='abc'`, ` id="&#97;bc"`, ` id="abc&#10;x"`,
 	` title=t`, ` title="<x>"`, ` onclick=x`, ` name=n`, ` name=7`,
-	` data-x=1`, ` data-xmlfoo=1`, ` data-x;=1`, ` data-data-;x=1`, ` data-a"b<c=1`, ` data-=1`, ` data-data-xmlq=1`,
+	` data-x=1`, ` data-xmlfoo=1`, ` data-x;=1`, ` data-data-;x=1`, ` data-a"b<c=1`, ` data-=1`, ` data-data-xmlq=1`, ` xdata-y=1`, ` aria-data-x=1`,
 	` style="color:red"`, ` href="javascript:x"`, ` href=/ok`, ` lang=en`,
 }
 
